@@ -149,6 +149,9 @@ type path struct {
 	q0, qs0, qu0, qk0 int
 	t0                time.Duration
 
+	doms     map[string]*domain // finite value sets of "simple" variables (cheap decisions)
+	termVars map[int][]string
+	cheap    int
 	acc      map[string]*smt.Term // verifCheck obligations accumulated per id
 	accOrder []string
 	accSite  map[string]string
@@ -257,11 +260,106 @@ func (p *path) site() string {
 	return fmt.Sprintf("%s@%s:%d", p.curFn.String(), file, pos.Line)
 }
 
+// domain is the exact set of values a variable can still take, maintained as
+// long as every constraint mentioning the variable mentions no other variable.
+type domain struct {
+	vals []uint64
+	w    int
+}
+
+// varsOf lists the variables of t (memoised; nil with ok=false when there are more than 2).
+func (p *path) varsOf(t *smt.Term) []string {
+	if p.termVars == nil {
+		p.termVars = map[int][]string{}
+	}
+	if v, ok := p.termVars[t.ID]; ok {
+		return v
+	}
+	var out []string
+	switch t.Op {
+	case smt.OpVar:
+		out = []string{t.Name}
+	case smt.OpConst:
+	default:
+		for _, a := range t.Args {
+			for _, n := range p.varsOf(a) {
+				dup := false
+				for _, o := range out {
+					if o == n {
+						dup = true
+					}
+				}
+				if !dup {
+					out = append(out, n)
+				}
+			}
+		}
+	}
+	p.termVars[t.ID] = out
+	return out
+}
+
+// noteConstraint keeps the finite domains consistent with a newly asserted t.
+func (p *path) noteConstraint(t *smt.Term) {
+	if len(p.doms) == 0 {
+		return
+	}
+	vs := p.varsOf(t)
+	if len(vs) == 1 {
+		if d := p.doms[vs[0]]; d != nil {
+			keep := d.vals[:0:0]
+			env := map[string]uint64{}
+			for _, v := range d.vals {
+				env[vs[0]] = v
+				if smt.Eval(t, env, map[int]uint64{}) != 0 {
+					keep = append(keep, v)
+				}
+			}
+			d.vals = keep
+		}
+		return
+	}
+	for _, n := range vs {
+		delete(p.doms, n) // the variable is now related to others: no longer "simple"
+	}
+}
+
+// cheapSides decides, without the solver, which sides of cond are feasible when
+// cond mentions exactly one variable with a tracked finite domain.
+func (p *path) cheapSides(cond *smt.Term) (canTrue, canFalse, ok bool) {
+	if len(p.doms) == 0 {
+		return false, false, false
+	}
+	vs := p.varsOf(cond)
+	if len(vs) != 1 {
+		return false, false, false
+	}
+	d := p.doms[vs[0]]
+	if d == nil {
+		return false, false, false
+	}
+	env := map[string]uint64{}
+	for _, v := range d.vals {
+		env[vs[0]] = v
+		if smt.Eval(cond, env, map[int]uint64{}) != 0 {
+			canTrue = true
+		} else {
+			canFalse = true
+		}
+		if canTrue && canFalse {
+			break
+		}
+	}
+	p.cheap++
+	return canTrue, canFalse, true
+}
+
 // assertPC adds t to the path condition.
 func (p *path) assertPC(t *smt.Term) {
 	if t.IsTrue() {
 		return
 	}
+	p.noteConstraint(t)
 	p.pc = append(p.pc, t)
 	if p.mdl != nil && smt.Eval(t, p.mdl, map[int]uint64{}) == 0 {
 		p.mdl = nil
@@ -344,6 +442,24 @@ func (p *path) decide(conds []*smt.Term, vals []int64) int {
 			feasible = []int{1}
 		case conds[1].IsFalse():
 			feasible = []int{0}
+		case func() bool {
+			ct, cf, ok := p.cheapSides(conds[0])
+			if !ok {
+				return false
+			}
+			switch {
+			case ct && cf:
+				feasible = []int{0, 1}
+			case ct:
+				feasible = []int{0}
+			case cf:
+				feasible = []int{1}
+			}
+			if ct {
+				p.mdl = nil // the cached model may sit on the other side; cheap to lose
+			}
+			return true
+		}():
 		case p.mdl != nil:
 			// the known model witnesses one side for free
 			side := 1
@@ -659,6 +775,8 @@ func goString(v value) string {
 	switch v := v.(type) {
 	case string:
 		return v
+	case opaque:
+		return "<" + v.what + ">"
 	case symstr:
 		panic("engine: symbolic string where a concrete one is required")
 	}
@@ -695,6 +813,34 @@ func callVerifAPI(fr *frame, name string, args []value) (res value, ok bool) {
 			out[i] = p.newInput(fmt.Sprintf("%s_%d", base, i), types.Uint8)
 		}
 		return normStr(out), true
+	case "verifIntFrom":
+		// a symbolic int restricted to the listed values, with its domain tracked
+		name := p.uniqueName(goString(args[0]))
+		var vals []uint64
+		for _, e := range args[1].([]value) {
+			vals = append(vals, uint64(asInt64(e)))
+		}
+		if len(vals) == 0 {
+			panic(pathEnd{"harness-error", "verifIntFrom with no values"})
+		}
+		if p.job.Concrete {
+			p.inputs = append(p.inputs, inputDecl{name: name})
+			return int(p.job.Inputs[name]), true
+		}
+		sn := smtName(name)
+		p.smtNames[sn] = name
+		t := p.ctx.Var(sn, 64)
+		p.inputs = append(p.inputs, inputDecl{name, t})
+		any := p.ctx.Bool(false)
+		for _, v := range vals {
+			any = p.ctx.BOr(any, p.ctx.Eq(t, p.ctx.BV(64, v)))
+		}
+		p.assertPC(any)
+		if p.doms == nil {
+			p.doms = map[string]*domain{}
+		}
+		p.doms[sn] = &domain{vals: vals, w: 64}
+		return sym{types.Int, t}, true
 	case "verifChoice":
 		n := int(asInt64(args[1]))
 		if n <= 0 {
@@ -746,6 +892,18 @@ func callVerifAPI(fr *frame, name string, args []value) (res value, ok bool) {
 		return nil, true
 	case "verifFlushChecks":
 		p.flushChecks()
+		return nil, true
+	case "verifSelU8":
+		// non-branching select: c ? a : b
+		switch c := args[0].(type) {
+		case bool:
+			if c {
+				return args[1], true
+			}
+			return args[2], true
+		case sym:
+			return mkVal(types.Uint8, p.ctx.Ite(c.t, termOf(args[1]), termOf(args[2]))), true
+		}
 		return nil, true
 	case "verifAnd":
 		return andV(args[0], args[1]), true
